@@ -1667,6 +1667,10 @@ func (env *SpecEnv) evalCall(x *ast.CallExpr) Val {
 	case "closed":
 		ch := arg(0)
 		return boolVal(env.cur().chanClosed(ch))
+	case "chancap":
+		// chancap(ch): the buffer size the channel was made with (a channel's capacity never changes)
+		ch := arg(0)
+		return intVal(Select(env.cur().heapTerm("CH#cap", SInt, false), ch.L[0]))
 	case "isfresh":
 		v := arg(0)
 		if env.callSite {
